@@ -366,6 +366,16 @@ class L3:
         exp[WORD_NAMES[k]] = ea
         return self.finish(f"lea {WORD_NAMES[k]},word {text}", exp, {})
 
+    def s_lea_label(self):
+        k = g(self.inp, "in_k") % 12
+        if k in (4, 5, 6, 7):
+            k = 0          # the production takes a general word register
+        off = g(self.inp, "in_off") & 0xFFFF
+        self.labels = [("opnd", off)]
+        exp = dict(self.regs)
+        exp[WORD_NAMES[k]] = off
+        return self.finish(f"lea {WORD_NAMES[k]},word opnd", exp, {})
+
     def s_control(self):
         mn = self.rp["mn"]
         r0 = dict(self.regs)
